@@ -30,6 +30,15 @@ CHECKS = {
  "C14": ("fault_enumeration", "trace monitor over the virtual transport's dial log (sound lower bounds per attempt, canary-calibrated upper bounds, stuck detector for progress, attempt count after Close)",
    "Fault scripts enumerate ReconnectTime x MaxReconnectTime x Close phase cells and place PRNG sequences of refused / established-then-dropped / hook-rejected / dropped-at-once connections at successive dial attempts on a dialer whose transport is the harness; the dial log (start/return of every transport Dial on one monotonic clock) is checked: each attempt at least ReconnectTime after the event that armed it (no epsilon), attempts keep coming while the dialer is open, traffic is exchanged on every new connection, delay capped / not growing / reset after a successful attach (upper bounds judged against a scheduler canary with parameters that make a bug several times off), a synchronous dialer does not retry before its first success, at most one attempt after Close. Fault enumeration: the fault kinds and phases are enumerated, their sequences sampled.",
    "Trusted: vt dial log timestamps; upper-bound verdicts depend on the canary rule (otherwise inconclusive). 'For as long as it is open' is restated as: the next attempt appears or the process is provably quiescent.", "3/C14"),
+ "C02": ("exploration", "offline history checking: polynomial FIFO-queue criterion for unique values over recorded Send/Recv histories (porcupine as cross-check on short ones), multiset/order monitors over real sockets and over the virtual transport's send logs",
+   "Concurrent senders and receivers on PAIR/PAIR1/XPAIR and PUSH->PULL topologies over inproc/tcp/ipc with WriteQLen x ReadQLen enumerated over {0,1,2,128}^2, GOMAXPROCS varied and library yield points on; each history (call/return times from one monotonic clock, unique payloads) is decided by the queue criterion (nothing invented, nothing twice, no real-time order inversion) plus completeness; under injected connection faults (vt peers dropped mid-traffic) what the transport accepted must be a duplicate-free per-connection-ordered subset; a lock-step conversation proves that intruding PAIR peers are refused without disturbing it. Send completion is decided by the stuck detector. Exploration: schedules are sampled.",
+   "Trusted: unique-value queue criterion (Henzinger/Sezgin/Vafeiadis), harness timestamps taken before the call and after the return. Order is only claimed within one connection.", "3/C02"),
+ "C08": ("exploration", "reference-model monitor over generated loop-free topologies with per-origin sentinels (real sockets) and multiset comparison of virtual-transport send logs",
+   "BUS meshes/chains/reflector hubs (Device and manual raw forwarding) and STAR stars/trees/paths of 2-5 members are built over inproc/ipc/tcp with raw and cooked members; barrier-separated rounds of tagged messages end with per-origin sentinels, so when a member holds an origin's sentinel it must hold exactly that origin's messages once each, unmodified, never its own, never from an unreachable origin; vt cases compare every pipe's transmissions with the model (originated -> every peer once; raw re-send -> all but the source; STAR forwards to all others; BUS never forwards). Exploration over topologies, senders and schedules.",
+   "Trusted: the topology reference model; bursts are sized so that best-effort queues cannot overflow; FIFO per connection (used only for the sentinel).", "3/C08"),
+ "C09": ("exploration", "exhaustive boundary grid through the virtual transport (injection + same-pipe sentinel) and end-to-end monitors over real Device chains and loops",
+   "Part A injects, for each of the eight receivers and each TTL, one message per hop count k in 0..TTL+2 followed by an in-limit sentinel on the same vt pipe and requires delivery exactly when 1 <= k <= TTL (PAIR1: k-1 <= TTL), body unchanged, raw backtrace/hop field correct; the thorough tier enumerates every TTL 1..255 (exhaustive). Part B builds real mangos.Device chains of length 0..4 (0..9 thorough) for REQ/REP, SURVEY, PAIR1, STAR, PUSH/PULL, PUB/SUB, BUS with concurrent clients: every reply must return to the asking client, delivery iff within the receiver's TTL; device cycles must die out (laps bounded by TTL, silence proven by a sentinel or process quiescence).",
+   "Trusted: vt injection path (bodies delivered as stream transports deliver them), the hop-count reference model written from the statement. Absence is decided by FIFO + sentinel, never by waiting.", "3/C09"),
 }
 
 NOT_YET = {}
